@@ -851,14 +851,16 @@ func (p *Polygon) Contains(o *Polygon) bool {
 	// Otherwise if neither polygon has holes, we can still use the more
 	// efficient Loop's Contains method (rather than compareBoundary),
 	// but it's worthwhile to do our own bounds check first.
-	if !p.subregionBound.Contains(o.bound) {
+	// (RectBound rather than the bound field: the zero value of Polygon is the
+	// empty polygon, but its bound field is the point (0, 0).)
+	if oBound := o.RectBound(); !p.subregionBound.Contains(oBound) {
 		// Even though Bound(A) does not contain Bound(B), it is still possible
 		// that A contains B. This can only happen when union of the two bounds
 		// spans all longitudes. For example, suppose that B consists of two
 		// shells with a longitude gap between them, while A consists of one shell
 		// that surrounds both shells of B but goes the other way around the
 		// sphere (so that it does not intersect the longitude gap).
-		if !p.bound.Lng.Union(o.bound.Lng).IsFull() {
+		if !p.bound.Lng.Union(oBound.Lng).IsFull() {
 			return false
 		}
 	}
